@@ -65,11 +65,14 @@ pub struct Model {
     pub untracked_last: Vec<bool>,
     /// effects ran since the last write to the context
     pub polled: Vec<bool>,
+    /// a set_locale on the context (or a write of the wired signal back to its old value) fell between a write to
+    /// its wired signal and the next poll: only then either value may win
+    pub set_in_window: Vec<bool>,
 }
 
 impl Model {
     pub fn new() -> Model {
-        Model { cands: vec![[0].into()], wired: vec![None], accessors: vec![], has_scope_setter: vec![false], untracked_last: vec![false], polled: vec![true] }
+        Model { cands: vec![[0].into()], wired: vec![None], accessors: vec![], has_scope_setter: vec![false], untracked_last: vec![false], polled: vec![true], set_in_window: vec![false] }
     }
     pub fn enabled(&self, max_ctx: usize, set_locales: &[usize]) -> Vec<Op> {
         let mut v = vec![];
@@ -97,7 +100,9 @@ impl Model {
             }
             if let Some((w, _)) = self.wired[c] {
                 // set the wired signal to a value different from / equal to its current one
-                v.push(Op::SigSet(c, (w + 1) % 3));
+                // (.. (w + 2) % 3: from the wired start value fr this is en - the locale a parent created first had when the
+                // sub-context was made: a wired value equal to the parent's is still the wired value)
+                v.push(Op::SigSet(c, (w + 2) % 3));
                 v.push(Op::SigSet(c, w));
             }
         }
@@ -114,6 +119,7 @@ impl Model {
                 if let Some(p) = pending {
                     // a wired value is on its way: either may win (statement silent)
                     self.cands[c].insert(p);
+                    self.set_in_window[c] = true;
                 }
             }
             Op::Sub(parent, init) | Op::SubProv(parent, init) | Op::SubFn(parent, init) | Op::SubInMemo(parent, init) => {
@@ -129,6 +135,7 @@ impl Model {
                 self.has_scope_setter.push(false);
                 self.untracked_last.push(false);
                 self.polled.push(false);
+                self.set_in_window.push(false);
             }
             Op::SigSet(c, l) => {
                 self.polled[c] = false;
@@ -140,6 +147,7 @@ impl Model {
                     } else if pending.is_some() {
                         // set back before effects ran: the memo may or may not see a change
                         self.cands[c].insert(l);
+                        self.set_in_window[c] = true;
                     }
                 }
             }
@@ -155,7 +163,8 @@ impl Model {
                 for c in 0..self.cands.len() {
                     if let Some((_, pending)) = &mut self.wired[c] {
                         if let Some(p) = pending.take() {
-                            if self.cands[c].len() <= 1 || !self.cands[c].contains(&p) {
+                            // (nothing else was written inside the window: the context follows its wired signal)
+                            if !std::mem::replace(&mut self.set_in_window[c], false) || self.cands[c].len() <= 1 || !self.cands[c].contains(&p) {
                                 self.cands[c] = [p].into();
                             } else {
                                 // a set happened inside the window: keep both admissible, but after
